@@ -7,6 +7,8 @@ Profiles steer the source kinds so that the analysis kind is predictable:
   's'    : causal step / s-domain sources, no initial conditions (kind 's'/'laplace')
   'ivp'  : some L/C carry initial conditions
   'mixed': dc + step sources together (two sub-analyses)
+  'ac'   : ac sources `ac V phase omega` with quarter-turn phases (so every phasor is a
+           Gaussian rational), one or two angular frequencies, sometimes a dc source too
 Structure: a random spanning tree over nodes 0..n built from two-terminal
 elements (so the graph is connected), a few extra chords, optional controlled
 sources / transformer / gyrator / mutual inductance / two-ports, optional wires
@@ -35,6 +37,16 @@ def gen_netlist(rng, profile='s', size=None, extras=True, allow=None):
     lines = []
     tags = set()
     cnt = {}
+    omegas = []
+    if profile == 'ac':      # (no draws for the other profiles: their random streams stay as they were)
+        omegas = [rng.choice(['2', '3', '{1/2}', '1'])]
+        if rng.random() < 0.3:
+            omegas.append(rng.choice(['5', '{3/2}']))
+
+    def acspec(v):
+        if rng.random() < 0.15:
+            return 'dc %s' % v
+        return 'ac %s %s %s' % (v, rng.choice(['0', '{pi/2}', '{-pi/2}', '{pi}', '{pi/2}', '{-pi/2}']), rng.choice(omegas))
 
     def name(prefix):
         cnt[prefix] = cnt.get(prefix, 0) + 1
@@ -68,8 +80,11 @@ def gen_netlist(rng, profile='s', size=None, extras=True, allow=None):
         nm = name('V')
         v = fs(val(rng, -6, 6) or 1)
         kind = {'dc': 'dc', 's': rng.choice(['step', 'step', 'sexp']), 'ivp': rng.choice(['step', 'dc0']),
-                'mixed': rng.choice(['dc', 'step'])}[profile]
-        if kind == 'dc':
+                'mixed': rng.choice(['dc', 'step']), 'ac': 'ac'}[profile]
+        if kind == 'ac':
+            lines.append('%s %s %s %s' % (nm, a, b, acspec(v)))
+            tags.add('ac')
+        elif kind == 'dc':
             lines.append('%s %s %s dc %s' % (nm, a, b, v))
         elif kind == 'dc0':
             lines.append('%s %s %s %s' % (nm, a, b, v))
@@ -83,8 +98,12 @@ def gen_netlist(rng, profile='s', size=None, extras=True, allow=None):
         a, b = orient(a, b)
         nm = name('I')
         v = fs(val(rng, -6, 6) or 1)
-        kind = {'dc': 'dc', 's': 'step', 'ivp': 'step', 'mixed': rng.choice(['dc', 'step'])}[profile]
-        lines.append('%s %s %s %s %s' % (nm, a, b, kind, v))
+        kind = {'dc': 'dc', 's': 'step', 'ivp': 'step', 'mixed': rng.choice(['dc', 'step']), 'ac': 'ac'}[profile]
+        if kind == 'ac':
+            lines.append('%s %s %s %s' % (nm, a, b, acspec(v)))
+            tags.add('ac')
+        else:
+            lines.append('%s %s %s %s %s' % (nm, a, b, kind, v))
         tags.add('I')
         return nm
 
@@ -106,10 +125,14 @@ def gen_netlist(rng, profile='s', size=None, extras=True, allow=None):
     for _ in range(rng.randint(0, 3)):
         i, j = rng.sample(range(0, n + 1), 2)
         r = rng.random()
-        if r < 0.2:
+        if r < (0.5 if profile == 'ac' else 0.2):
             isource(names[i], names[j])
         else:
             passive(names[i], names[j])
+    if profile == 'ac' and not (tags & {'L', 'C'}):
+        # a purely resistive ac circuit is analysed in the time domain: force a phasor analysis
+        lines.append('%s %s 0 %s' % (name('C'), names[rng.randint(1, n)], fs(val(rng))))
+        tags.add('C')
     # ground resistors so that dc solutions exist
     for i in range(1, n + 1):
         if rng.random() < 0.3:
